@@ -43,4 +43,13 @@ def h_lock_dag_SockAddr : Nat := 0x832fbcd7c98247ae
 /-- hash of the normalised skeleton of dryRun (internal/agent/agent.go) -/
 def h_lock_agent_dryRun : Nat := 0x8414dd1c30f3f649
 
+/-- hash of the normalised skeleton of * (internal/agent/agent.go) -/
+def h_rest_lock_agent_agent_go : Nat := 0x3ff18b87579734a2
+
+/-- hash of the normalised skeleton of * (internal/sock/server.go) -/
+def h_rest_lock_sock_server_go : Nat := 0x0655865fc99f782e
+
+/-- hash of the normalised skeleton of * (internal/sock/client.go) -/
+def h_rest_lock_sock_client_go : Nat := 0x31e5290ed0110ca3
+
 end BdModel.Canon.Lock
